@@ -10,7 +10,9 @@ Import MR.
 
 Lemma Vvsum_rsum l : V.vsum l = rsum l.
 Proof. induction l as [|x l IH]; simpl; [reflexivity|]. rewrite IH. reflexivity. Qed.
-Ltac vs := repeat match goal with |- context [V.vsum ?l] => change (V.vsum l) with (rsum l) end.
+Lemma Vvsum_eq : @eq (list R -> R) V.vsum rsum.
+Proof. reflexivity. Qed.
+Ltac vs := rewrite ?Vvsum_eq in *.
 Lemma Vmap3_combine {A B C D} (f : A -> B -> C -> D) a b c :
   V.map3 f a b c = map (fun t => f (fst (fst t)) (snd (fst t)) (snd t)) (combine (combine a b) c).
 Proof. revert b c; induction a as [|x a IH]; intros [|y b] [|z c]; simpl; try reflexivity. now rewrite IH. Qed.
